@@ -815,7 +815,11 @@ impl Xot {
                         }
                         for name in self.attributes(node).keys() {
                             let namespace_id = self.namespace_for_name(name);
-                            if !fullname_serializer.is_namespace_known(namespace_id) {
+                            // an attribute in a namespace needs a non-empty
+                            // prefix; the default namespace does not resolve it
+                            if namespace_id != self.no_namespace_id
+                                && fullname_serializer.attribute_prefix(name).is_err()
+                            {
                                 namespaces.push(namespace_id);
                             }
                         }
